@@ -648,3 +648,5 @@ func trunc(s string, n int) string {
 }
 
 func TestRunnerChildProcess(t *testing.T) { pbt.Run(t, genRobust, checkChild) }
+
+func FuzzJsonSafeArray(f *testing.F) { pbt.Fuzz(f, genArr, checkArr) }
